@@ -197,38 +197,57 @@ def cbHeightOf (txs : List BV.C08.Tx) : Int :=
 
 /-! ### the derivation -/
 
-def derive (r : Input) : Option Desc := do
-  let anc ← r.anc.mapM decBlock
-  let blk ← decBlock r.blk
+/-- the description of a decoded candidate `blk` (of `len` serialized bytes) on the decoded ancestor chain `anc`
+    (genesis first): every fact is a sibling-model function of the decoded data -/
+def describe (n : Net) (now : Int) (anc : List BV.C08.Block) (blk : BV.C08.Block) (len : Nat)
+    (scripts : List (List (Bool × Nat))) : Desc :=
   let hdr := blk.1
   let txs := blk.2
   let height := anc.length
   let c := chain09 anc
-  let prevTime := match c with | h :: _ => h.time | [] => 0
-  let n := r.net
   let on := fun (d : BV.C14.Dep) => if active14 n d anc then (1 : Int) else 0
-  let bip34HashOk := match n.bip34Hash with
-    | none => false
-    | some h => match anc[n.bip34H.toNat]? with
-      | some a => decide (0 ≤ n.bip34H) && BV.C08.blockHash a.1 == h
-      | none => false
-  let P : Params :=
-    { bip34H := n.bip34H, bip65H := n.bip65H, bip66H := n.bip66H, csvH := on n.csv, segH := on n.seg,
-      tapH := on n.tap, bip94 := n.bip94, maturity := n.maturity, subsidyInterval := n.subsidyInterval,
-      powLimit := n.pow.powLimit, blocksPerRetarget := n.pow.blocksPerRetarget, bip34HashOk := bip34HashOk }
-  let C : Ctx :=
-    { height := height, prevMTP := BV.C09.calcPastMedianTime c, prevTime := prevTime,
-      expectedBits := (BV.C09.calcNextRequiredDifficulty n.pow c (hdrTime hdr)).getD 0, now := r.now }
-  let H : Header :=
-    { version := toInt32 (hdrVersion hdr), bits := hdrBits hdr, time := hdrTime hdr,
-      target := BV.C09.compactToBig (hdrBits hdr), hashNum := BV.C09.hashToBig (BV.C08.blockHash hdr) }
-  let tf := txsFacts height c (utxoOfAncestors anc) txs r.scripts
-  let stripped := 80 + BV.Codec.varintSize txs.length + (txs.map txStrippedSize).sum
-  let B : BlockFacts :=
-    { strippedSize := stripped, totalSize := r.blk.length, txs := tf,
-      merkleOk := hdrMerkle hdr == merkleRoot txs,
-      dupTxids := hasDupPrev (txs.map (fun t => (BV.C08.txid t, 0))),
-      commit := commitStatus txs, cbHeight := cbHeightOf txs }
-  pure ⟨P, C, H, B⟩
+  { P :=
+      { bip34H := n.bip34H, bip65H := n.bip65H, bip66H := n.bip66H, csvH := on n.csv, segH := on n.seg,
+        tapH := on n.tap, bip94 := n.bip94, maturity := n.maturity, subsidyInterval := n.subsidyInterval,
+        powLimit := n.pow.powLimit, blocksPerRetarget := n.pow.blocksPerRetarget,
+        bip34HashOk := match n.bip34Hash with
+          | none => false
+          | some h => match anc[n.bip34H.toNat]? with
+            | some a => decide (0 ≤ n.bip34H) && BV.C08.blockHash a.1 == h
+            | none => false }
+    C :=
+      { height := height, prevMTP := BV.C09.calcPastMedianTime c,
+        prevTime := match c with | h :: _ => h.time | [] => 0,
+        expectedBits := (BV.C09.calcNextRequiredDifficulty n.pow c (hdrTime hdr)).getD 0, now := now }
+    H :=
+      { version := toInt32 (hdrVersion hdr), bits := hdrBits hdr, time := hdrTime hdr,
+        target := BV.C09.compactToBig (hdrBits hdr), hashNum := BV.C09.hashToBig (BV.C08.blockHash hdr) }
+    B :=
+      { strippedSize := 80 + BV.Codec.varintSize txs.length + (txs.map txStrippedSize).sum, totalSize := len,
+        txs := txsFacts height c (utxoOfAncestors anc) txs scripts,
+        merkleOk := hdrMerkle hdr == merkleRoot txs,
+        dupTxids := hasDupPrev (txs.map (fun t => (BV.C08.txid t, 0))),
+        commit := commitStatus txs, cbHeight := cbHeightOf txs } }
+
+/-- a description no block satisfies (an undecodable candidate) -/
+def undecodable (n : Net) (now : Int) : Desc :=
+  { P := ⟨n.bip34H, n.bip65H, n.bip66H, 0, 0, 0, n.bip94, n.maturity, n.subsidyInterval, n.pow.powLimit,
+          n.pow.blocksPerRetarget, false⟩
+    C := ⟨0, 0, 0, 0, now⟩
+    H := ⟨0, 0, 0, 0, 0⟩
+    B := ⟨0, 0, [], false, false, 0, -1⟩ }
+
+/-- from the raw bytes: ancestors that do not decode are dropped (indexed blocks always decode), an undecodable
+    candidate gets the unsatisfiable description -/
+def deriveD (r : Input) : Desc :=
+  match decBlock r.blk with
+  | some blk => describe r.net r.now (r.anc.filterMap decBlock) blk r.blk.length r.scripts
+  | none => undecodable r.net r.now
+
+/-- strict form used by the driver: everything must decode -/
+def derive (r : Input) : Option Desc := do
+  let anc ← r.anc.mapM decBlock
+  let blk ← decBlock r.blk
+  pure (describe r.net r.now anc blk r.blk.length r.scripts)
 
 end BV.C01.Raw
